@@ -1,4 +1,4 @@
-add("C16", "checks/c16_floattext.c", ["default-plain", "dtostre-plain", "dtostre-asan", "c89-plain"], ["default-plain", "default-asan", "dtostre-plain", "dtostre-asan", "c89-plain"],
+add("C16", "checks/c16_floattext.c", ["default-plain", "dtostre-plain", "dtostre-asan", "c89-plain"], ["default-plain", "default-asan", "dtostre-plain", "dtostre-asan", "c89-plain", "optall-plain"],
     "evaluations = texts produced by the library and judged (per value: SCPI_DoubleToStr, SCPI_FloatToStr on the nearest float, SCPI_dtostre at each "
     "precision 1..15; one value in ~24-32 additionally SCPI_ResultDouble/SCPI_ResultFloat through a real context). Values: enumerated = every power of "
     "ten 1e-323..1e308 with neighbours, negatives, p nines that carry into it (p = 1..16) and float versions; d*10^k + 10^(k-z) for d 1..9, every k, "
